@@ -490,6 +490,11 @@ def run(ctx):
     iprog = ctx.program(names=["ncmpio_intra_node.c"])
     ng = r8aggrgroup.check(ctx, ctx.need_fn(iprog, "ncmpio_intra_node_aggr_init"), "R8.aggrgroup")
     ctx.require(ng >= 200, "R8.aggrgroup: only %d cells evaluated" % ng)
+    from rules import r8varshape
+    ctx.rule("R8.varshape", "compute_var_shape: no sum of file-supplied begin / length values leaves the signed 64-bit range (bounded, "
+             "overflow trap)")
+    nvs = r8varshape.check(ctx, ctx.need_fn(hprog, "compute_var_shape"), "R8.varshape")
+    ctx.require(nvs >= 2000, "R8.varshape: only %d variable lists evaluated" % nvs)
     from rules import r9eof
     ctx.rule("R9a.eof", "the header chunk reader turns 'nothing read' into an error and broadcasts its status whenever nprocs > 1")
     r9eof.check(ctx, hprog, "R9a.eof")
